@@ -7,13 +7,31 @@ listed per property; quick = the ones that finish within about a minute each, th
 
 ALL = ['C%02d' % i for i in range(1, 19)]
 
-# behaviour that the statement of a property includes although the clause is tagged for another one
+# behaviour that the statement of a property includes although the clause is tagged for another one (direct edges;
+# counts_for uses the transitive closure)
 DEPS = {
     'C02': ['C03'],             # "whose RFC 5892 rule is satisfied at that position": acceptance depends on the rules deciding correctly
-    'C06': ['C12', 'C13'],      # "map every Zs ... strip ... collapse" and "permitted number of re-applications"
+    'C04': ['C02', 'C11', 'C10', 'C09'],   # "accepted by IdentifierClass", width mapping, lowercase mapping, "the directionality rule": the pipeline contract is stated over those rule contracts
+    'C05': ['C02', 'C12'],      # "accepted by FreeformClass", "replacing every non-ASCII space"
+    'C06': ['C02', 'C12', 'C13'],      # "validate with FreeformClass", "map every Zs ... strip ... collapse", "permitted number of re-applications"
     'C08': ['C06', 'C13', 'C04', 'C05'],   # Nickname half: re-validation every round + fixed point; other profiles: the argument rests on the pipeline contracts (validate, then map, then NFC)
     'C07': ['C13'],             # Nickname comparison form is iterated to stability
+    'C16': ['C04', 'C05', 'C06', 'C07'],   # "results depend only on the arguments": every result is a spec function of the arguments, which is what those contracts state
 }
+# clauses that count only for the property they are tagged with: C09.exact compares the implemented language with
+# RFC 5893 itself (a known finding of C09); the other properties only need the rule to be the function the rest of
+# the contracts are stated over (C09.rtl / C09.ltr / ...)
+OWN_ONLY = {'C09.exact'}
+
+
+def _closure(p, seen=None):
+    seen = seen if seen is not None else set()
+    for d in DEPS.get(p, []):
+        if d not in seen:
+            seen.add(d)
+            _closure(d, seen)
+    return seen
+
 
 K = lambda pkg, h, quick=True: dict(pkg=pkg, harness=h, quick=quick)
 CC = 'common::verif_kani::'
@@ -76,6 +94,21 @@ LEDGER = {
 }
 
 
+def kani_for(prop, tier):
+    """(harnesses to run, harnesses not run in this tier).  quick: the property's own quick harnesses;
+    thorough: all its own plus those of every property its statement depends on (DEPS closure)."""
+    own = KANI.get(prop, [])
+    if tier != 'thorough':
+        return [h for h in own if h['quick']], [h['harness'] for h in own if not h['quick']]
+    out, seen = [], set()
+    for p in [prop] + sorted(_closure(prop)):
+        for h in KANI.get(p, []):
+            if h['harness'] not in seen:
+                seen.add(h['harness'])
+                out.append(h)
+    return out, []
+
+
 def tag_props(tag):
     head = tag.split('.', 1)[0]
     return head.split('+')
@@ -85,7 +118,9 @@ def counts_for(tag, prop):
     ps = tag_props(tag)
     if prop in ps:
         return True
-    for d in DEPS.get(prop, []):
+    if tag in OWN_ONLY:
+        return False
+    for d in _closure(prop):
         if d in ps:
             return True
     return False
